@@ -10,6 +10,7 @@ from engine import symx
 from engine.symx import SB, SV, SI
 from harness import C08
 from lib import core
+from fractions import Fraction
 from lib.core import Job, fl
 
 ASSUMPTIONS = [
@@ -181,12 +182,58 @@ def h4_order(timeout=200, part=None, **kw):
         boxes = [o for o in pg if isinstance(o, lt.LTTextBox)]
         texts = [bx.get_text() for bx in boxes]
         ex.require(texts == ["a\n", "b\n"], "boxes come out as %r; a single column must read top to bottom, a left column before a right one" % texts, **info)
+        ex.require((pg.groups is None) == (bf is None), "boxes_flow=%s: the page %s a group hierarchy (only None switches the flow analysis off)" % (
+            "None" if bf is None else "a number", "has no" if pg.groups is None else "has"), **info)
 
     def conc(m, info):
         g = lambda t: [symx.mval(m, v) for v in t]
         return {"arr": info["arr"], "bf": None if info["bf"] is None else symx.mval(m, info["bf"]), "a": g(info["a"]), "b": g(info["b"]), "first_b": info["first_b"]}
     return core.run_symx("H4_order", fn, [lt.LTLayoutContainer.analyze, lt.LTTextGroupLRTB.analyze, lt.IndexAssigner.run, lt.LTLayoutContainer.group_textboxes],
                          {"arrangement": "one column / two columns of equal height, symbolic position, size and gap", "boxes_flow": "symbolic in (-1,1) or None", "content_order": "both"},
+                         timeout, concretize=conc, shims={"namespace_shims": shims}, part=part, int_lo=-4, int_hi=8)
+
+
+def h4_columns(timeout=200, part=None, **kw):
+    """a left column of two paragraphs (a above b) and a right paragraph c level with a, every content order, boxes_flow symbolic in (-1,1): the two near paragraphs form a group; by the
+    documented weighting (1-f) x0 - (1+f)(y0+y1) the group precedes c exactly when f < 1/3, so the reading order is a b c below 1/3 and c a b above - in particular at f = 0 and never
+    the bottom-left order a c b that boxes_flow=None gives"""
+    shims = C08.setup()
+    import pdfminer.layout as lt
+    from pdfminer.layout import LTChar, LTPage
+    import itertools
+    ORDERS = list(itertools.permutations("abc"))
+
+    def fn(ex):
+        flow_none = ex.choice(2, "flow_none")
+        bf = None if flow_none else ex.real("bf", -1, 1)
+        if bf is not None:
+            ex.assume(bf > -1)
+            ex.assume(bf < 1)
+        order = ORDERS[ex.choice(6, "content_order")]
+        boxes = {"a": (0, 20, 10, 30), "b": (0, 0, 10, 10), "c": (40, 20, 50, 30)}
+
+        def char(t):
+            c = LTChar.__new__(LTChar)
+            c.set_bbox(boxes[t])
+            c._text, c.size, c.upright, c.fontname, c.adv = t, 10, True, "F", 10
+            return c
+        pg = LTPage(1, (0, 0, 100, 100))
+        for t in order:
+            pg.add(char(t))
+        info = {"bf": bf, "order": "".join(order)}
+        pg.analyze(laparams(boxes_flow=bf))
+        texts = "".join(bx.get_text().strip() for bx in pg if isinstance(bx, lt.LTTextBox))
+        if bf is None:
+            ex.require(texts == "acb", "boxes_flow=None: reading order %r, by bottom-left corners it is 'acb'" % texts, **info)
+        elif bf < Fraction(1, 3):
+            ex.require(texts == "abc", "boxes_flow below 1/3: reading order %r, the documented weighting gives 'abc'" % texts, **info)
+        elif bf > Fraction(1, 3):
+            ex.require(texts == "cab", "boxes_flow above 1/3: reading order %r, the documented weighting gives 'cab'" % texts, **info)
+
+    def conc(m, info):
+        return {"bf": None if info["bf"] is None else symx.mval(m, info["bf"]), "order": info["order"]}
+    return core.run_symx("H4_order", fn, [lt.LTLayoutContainer.analyze, lt.LTTextGroupLRTB.analyze, lt.IndexAssigner.run, lt.LTLayoutContainer.group_textboxes],
+                         {"arrangement": "three paragraphs at fixed places (two in a left column, one to the right of the upper one)", "boxes_flow": "symbolic in (-1,1) or None", "content_order": "all six"},
                          timeout, concretize=conc, shims={"namespace_shims": shims}, part=part, int_lo=-4, int_hi=8)
 
 
@@ -374,6 +421,16 @@ def replay(harness, inp):
         want = close and size and align
         return None if got == want else "lines %r and %r (%s), line_margin %s: neighbour reported=%s, documented relation says %s (close=%s same size=%s aligned=%s)" % (
             tuple(map(float, e1)), tuple(map(float, e2)), "vertical" if vertical else "horizontal", inp["ratio"], got, want, close, size, align)
+    if harness == "H4_order" and "order" in inp:
+        boxes = {"a": (0, 20, 10, 30), "b": (0, 0, 10, 10), "c": (40, 20, 50, 30)}
+        pg = lt.LTPage(1, (0, 0, 100, 100))
+        for t in inp["order"]:
+            pg.add(_char(t, boxes[t]))
+        bf = None if inp["bf"] is None else F(inp["bf"])
+        pg.analyze(laparams(boxes_flow=None if bf is None else fl(bf)))
+        texts = "".join(o.get_text().strip() for o in pg if isinstance(o, lt.LTTextBox))
+        exp = "acb" if bf is None else ("abc" if bf < F(1, 3) else "cab")
+        return None if texts == exp else "paragraphs a (0,20,10,30), b (0,0,10,10), c (40,20,50,30) added in the order %s, boxes_flow=%r: reading order %r, expected %r" % (inp["order"], None if bf is None else float(bf), texts, exp)
     if harness == "H4_order":
         a, b = _char("a", inp["a"]), _char("b", inp["b"])
         pg = lt.LTPage(1, (0, 0, 100, 100))
@@ -382,6 +439,8 @@ def replay(harness, inp):
         bf = None if inp["bf"] is None else fl(F(inp["bf"]))
         pg.analyze(laparams(boxes_flow=bf))
         texts = [o.get_text() for o in pg if isinstance(o, lt.LTTextBox)]
+        if (pg.groups is None) != (bf is None):
+            return "glyph a at %r, b at %r, boxes_flow=%r: the page %s a group hierarchy" % (a.bbox, b.bbox, bf, "has no" if pg.groups is None else "has")
         return None if texts == ["a\n", "b\n"] else "glyph a at %r, b at %r, boxes_flow=%r: boxes come out as %r" % (a.bbox, b.bbox, bf, texts)
     if harness == "H5_scale":
         num, den = inp["scale"]
@@ -406,6 +465,7 @@ def jobs(tier):
                 J.append(Job("H3_neighbors:%s:%d" % ("v" if v else "h", k), "h3_neighbors", {"vertical": v, "part": [k, 3, 8]}, 300, "H3_neighbors"))
         for k in range(3):
             J.append(Job("H4_order:%d" % k, "h4_order", {"part": [k, 3, 7]}, 300, "H4_order"))
+        J.append(Job("H4_order:columns", "h4_columns", {}, 300, "H4_order"))
         for k in range(3):
             J.append(Job("H5_scale:fixed:%d" % k, "h5_scale", {"family": "fixed", "part": [k, 3, 8]}, 300, "H5_scale"))
         for k in range(8):
@@ -417,6 +477,7 @@ def jobs(tier):
             for k in range(4):
                 J.append(Job("H3_neighbors:%s:%d" % ("v" if v else "h", k), "h3_neighbors", {"vertical": v, "part": [k, 4, 8]}, 900, "H3_neighbors"))
         J.append(Job("H4_order", "h4_order", {}, 900, "H4_order"))
+        J.append(Job("H4_order:columns", "h4_columns", {}, 900, "H4_order"))
         for k in range(16):
             J.append(Job("H5_scale:general:%d" % k, "h5_scale", {"family": "general", "part": [k, 16, 12]}, 1800, "H5_scale"))
         for k in range(4):
